@@ -1940,7 +1940,14 @@ def optimize_or(left: SymbolicExpression, right: SymbolicExpression) -> OR:
 
     left_vars = left._unique_variables_.filter(is_a_query_variable)
     right_vars = right._unique_variables_.filter(is_a_query_variable)
-    if set(left_vars.unwrapped_values) == set(right_vars.unwrapped_values):
+    # ElseIf evaluates its right operand for the false results of its left operand. A quantifier does not produce false
+    # results, it produces nothing when it does not hold, so the right operand would be skipped.
+    left_has_a_quantifier = any(
+        isinstance(node, QuantifiedConditional) for node in [left] + left._descendants_
+    )
+    if not left_has_a_quantifier and set(left_vars.unwrapped_values) == set(
+        right_vars.unwrapped_values
+    ):
         return ElseIf(left, right)
     else:
         return Union(left, right)
